@@ -73,7 +73,7 @@ func targetMethod(r *rand.Rand, p *synth.Project, withBody, withForm bool) synth
 	return m
 }
 
-var PerturbationIDs = []string{"P0", "P1", "P2", "P3", "P3b", "P3c", "P22", "P22d", "P15d", "P16d", "P18d", "P6d", "P4", "P5", "P6", "P7", "P8q", "P8h", "P8b", "P8f", "P9", "P10", "P11s", "P11m", "P11t", "P12", "P13a", "P13b", "P14a", "P14b", "P15", "P16", "P17", "P18", "P20", "P21", "PC1", "PC2", "PC3", "PC4"}
+var PerturbationIDs = []string{"P0", "P1", "P2", "P3", "P3b", "P3c", "P22", "P22d", "P15d", "P16d", "P18d", "P6d", "PX1", "PX2", "PX3", "PX4", "P4", "P5", "P6", "P7", "P8q", "P8h", "P8b", "P8f", "P9", "P10", "P11s", "P11m", "P11t", "P12", "P13a", "P13b", "P14a", "P14b", "P15", "P16", "P17", "P18", "P20", "P21", "PC1", "PC2", "PC3", "PC4"}
 
 func paramIdx(m *synth.Method, name string) int {
 	for i, p := range m.Params {
@@ -170,6 +170,22 @@ func ApplyPerturbation(p *synth.Project, id string, r *rand.Rand) *Perturbation 
 	case "P18d":
 		pt.Rule, pt.Expect, pt.Listed = "@Response(abc) with an unknown property", "reject", false
 		m.ExtraAnn = append(m.ExtraAnn, "// @Response(abc, { x: 1 })")
+	case "PX1":
+		pt.Rule, pt.Expect = "a URL parameter no @Path binds, repeated in the template ({ghost} twice)", "reject"
+		m.Route += "/a/{ghost}/b/{ghost}"
+	case "PX2":
+		pt.Rule, pt.Expect = "two @Path annotations whose name property is not a string", "reject"
+		m.ExtraAnn = append(m.ExtraAnn, "// @Path(alias1, { name: 5 })", "// @Path(alias2, { name: 6 })")
+	case "PX3":
+		pt.Rule, pt.Expect = "a @Path with a non-string name on something that is not a parameter, next to an unbound URL parameter", "reject"
+		m.ExtraAnn = append(m.ExtraAnn, "// @Path(ghostRef, { name: 5 })")
+		m.Route += "/{unbound}"
+	case "PX4":
+		pt.Rule, pt.Expect = "@Path(x) deleted and another parameter renamed (two independent link defects in one method)", "reject"
+		m.DropAnn = append(m.DropAnn, "Path:"+pathName)
+		i := paramIdx(&m, "q")
+		m.Params[i].AnnName = "q"
+		m.Params[i].GoName = "qq"
 	case "P6d":
 		pt.Rule, pt.Expect = "a second @Path(x) carrying an unknown property (warning-level)", "reject"
 		m.ExtraAnn = append(m.ExtraAnn, "// @Path("+pathName+", { example: 1 })")
